@@ -28,6 +28,7 @@
      design     : FullExpr (reverse substitution), DepGraph + DepImpl (BFS of
                   networkx with reversed-sorted neighbours), RemoveImpl,
                   ReassignImpl  -- transcriptions of pharmpy's algorithms
+                  (as repaired by the fix commits 3eefa1d and 108b1c2)
    TLC checks the design theorems (T0..T7 below) on every reachable program
    and prints the reference results of a sample of the programs as cases.
 
@@ -258,29 +259,21 @@ RECURSIVE FoldDeps(_, _, _)
 FoldDeps(P, order, symbs) ==
     IF order = <<>> THEN symbs
     ELSE FoldDeps(P, Tail(order), (symbs \ {P[Head(order)].lhs}) \cup RhsSyms(P[Head(order)]))
-\* outcome "set" | "KeyError" | "NetworkXError"
+\* outcome "set" | "KeyError"   (a statement without edges is not a node of the graph: its own symbols are the answer;
+\* before fix 3eefa1d the BFS was started from it anyway and networkx raised NetworkXError -- finding C10-F1)
 DepImpl(P, G, s) ==
     LET i == LastDef(P, s)
     IN IF i = 0 THEN [o |-> "KeyError", s |-> {}]
-       ELSE IF i = 1 \/ G = {} THEN [o |-> "set", s |-> RhsSyms(P[i])]
-       ELSE IF i \notin GNodes(G) THEN [o |-> "NetworkXError", s |-> {}]   \* bfs from a node the graph does not have
+       ELSE IF i \notin GNodes(G) THEN [o |-> "set", s |-> RhsSyms(P[i])]
        ELSE [o |-> "set", s |-> FoldDeps(P, Bfs(G, <<i>>, {i}, <<>>), RhsSyms(P[i]))]
 
 \* remove_symbol_definitions
 RECURSIVE Reach(_, _, _)
 Reach(G, S, n) == IF n = 0 THEN S ELSE Reach(G, S \cup UNION {Succ(G, i) : i \in S}, n - 1)
+\* candidates = definitions of S before k and what they are computed from; minus what k itself needs; minus the
+\* candidates (and their dependencies) that ANY statement which is not removed still reads.  (Before fix 108b1c2 only
+\* readers AFTER k were considered -- finding C10-F2, found by TLC as a counterexample to T4.)
 RemoveImpl(P, G, S, k) ==
-    LET n == Len(P)
-        c0 == {i \in 1..(k - 1) : ~IsOde(P[i]) /\ P[i].lhs \in S}
-        c1 == c0 \cup Reach(G, c0 \cap GNodes(G), n)
-        keep == Reach(G, {k}, n) \ {k}
-        c2 == c1 \ keep
-        add0 == {e[2] : e \in {x \in G : x[1] > k /\ x[2] \in c2}}
-        add == Reach(G, add0, n)
-    IN c2 \ add
-
-\* the repaired algorithm of proposed_fixes/C10-F2: protect the candidates read by ANY statement that is not removed
-RemoveFixed(P, G, S, k) ==
     LET n == Len(P)
         c0 == {i \in 1..(k - 1) : ~IsOde(P[i]) /\ P[i].lhs \in S}
         c1 == c0 \cup Reach(G, c0 \cap GNodes(G), n)
@@ -315,17 +308,10 @@ T2_DepSound == \A s \in QSyms : LET r == DepImpl(prog, reads, s) IN
 T3_DepBounds == \A s \in QSyms : DepLo(s) \subseteq DepUp(s)
 \* NOT a theorem (recorded per case): the initial value of a symbol that is assigned later can be lost
 DepInitLost(s) == LET r == DepImpl(prog, reads, s) IN r.o = "set" /\ ~(DepLo(s) \subseteq r.s)
-\* T4: the removal algorithm's answer is admissible -- EXCEPT (found by TLC, reproduced on the real code, finding
-\* C10-F2) when a statement strictly between a removed definition and statement k still reads the removed symbol:
-\* the algorithm only protects the dependencies of k and the readers AFTER k.
-Between(P, k, R) == \E j \in R : \E i \in (j + 1)..(k - 1) : i \notin R /\ P[j].lhs \in RhsAtoms(P[i])
+\* T4: the removal algorithm's answer is admissible
 RmOk(P, G, v0, S, k, R) == R \subseteq Cands(P, G, S, k) /\ SoundV(P, v0, R) /\ Complete(P, S, k, R)
 T4_Remove == \A k \in 1..Len(prog), S \in RmSets :
-                RmPre(prog, S, k) => LET R == RemoveImpl(prog, reads, S, k)
-                                     IN Between(prog, k, R) \/ RmOk(prog, reads, vals, S, k, R)
-\* T4b: the repaired algorithm is admissible without exception
-T4b_FixedRemove == \A k \in 1..Len(prog), S \in RmSets :
-                      RmPre(prog, S, k) => RmOk(prog, reads, vals, S, k, RemoveFixed(prog, reads, S, k))
+                RmPre(prog, S, k) => RmOk(prog, reads, vals, S, k, RemoveImpl(prog, reads, S, k))
 \* T5: the backwards loop is "delete the earlier definitions, replace the last"
 T5_Reassign == \A s \in Syms : ReassignImpl(prog, s, RaExpr) = RefReassign(prog, s, RaExpr)
 \* T6: renaming a leaf commutes with execution
